@@ -1676,6 +1676,158 @@ def _orders_attr(fn, attrs: Set[str], selfname: str = "self") -> List[tuple]:
     return out
 
 
+_STR_MAKERS = {"str", "repr", "ascii", "format"}
+_STR_ATTRS = {"__qualname__", "__name__", "__module__"}
+
+
+def _annotation_of(name_expr: ast.expr, fn: ast.FunctionDef, cls_node) -> Optional[ast.expr]:
+    """Annotation of a parameter of fn, or of ``self.<attr>`` from the class body."""
+    if isinstance(name_expr, ast.Name):
+        for a in fn.args.posonlyargs + fn.args.args + fn.args.kwonlyargs + ([fn.args.vararg] if fn.args.vararg else []):
+            if a.arg == name_expr.id:
+                return a.annotation
+    if isinstance(name_expr, ast.Attribute) and isinstance(name_expr.value, ast.Name) and name_expr.value.id in ("self", "cls") and cls_node is not None:
+        for st in cls_node.body:
+            if isinstance(st, ast.AnnAssign) and isinstance(st.target, ast.Name) and st.target.id == name_expr.attr:
+                return st.annotation
+    return None
+
+
+def _elem_type_is_str(ann: Optional[ast.expr], which: int = 0) -> Optional[bool]:
+    """Is type argument ``which`` of a Mapping/Dict/Iterable/… annotation ``str``?  None when it cannot be read."""
+    if ann is None:
+        return None
+    if isinstance(ann, ast.Constant) and isinstance(ann.value, str):
+        try:
+            ann = ast.parse(ann.value, mode="eval").body
+        except SyntaxError:
+            return None
+    if isinstance(ann, ast.Subscript):
+        sl = ann.slice
+        args = list(sl.elts) if isinstance(sl, ast.Tuple) else [sl]
+        if len(args) > which:
+            t = args[which]
+            txt = ast.unparse(t)
+            if txt == "str":
+                return True
+            if txt.split(".")[-1] in ("Hashable", "Any", "object") or "Evaluatable" in txt or "Union" in txt or "Optional" in txt:
+                return False
+    return None
+
+
+def joined_strings(arg: ast.expr, fn: ast.FunctionDef, cls_node, amap) -> Optional[bool]:
+    """Are the elements handed to ``sep.join(·)`` strings?  True / False when it can be told from the expression and
+    the annotations, None otherwise (not judged)."""
+    x = arg
+    if isinstance(x, ast.Name) and x.id in amap:
+        return joined_strings(amap[x.id], fn, cls_node, amap)
+    if isinstance(x, ast.Call):
+        f = x.func
+        short = f.attr if isinstance(f, ast.Attribute) else (f.id if isinstance(f, ast.Name) else "")
+        if short == "map" and x.args and isinstance(x.args[0], ast.Name) and x.args[0].id in _STR_MAKERS:
+            return True
+        if short in ("splitlines", "split", "rsplit"):
+            return True
+        if short in ("sorted", "reversed", "list", "tuple", "set") and len(x.args) == 1:
+            return joined_strings(x.args[0], fn, cls_node, amap)
+        if short == "keys" and isinstance(f, ast.Attribute) and not x.args:
+            return _elem_type_is_str(_annotation_of(f.value, fn, cls_node), 0)
+        if short == "values" and isinstance(f, ast.Attribute) and not x.args:
+            return _elem_type_is_str(_annotation_of(f.value, fn, cls_node), 1)
+        return None
+    if isinstance(x, (ast.GeneratorExp, ast.ListComp, ast.SetComp)):
+        e = x.elt
+        if isinstance(e, ast.JoinedStr) or (isinstance(e, ast.Constant) and isinstance(e.value, str)):
+            return True
+        if isinstance(e, ast.Call):
+            f = e.func
+            short = f.attr if isinstance(f, ast.Attribute) else (f.id if isinstance(f, ast.Name) else "")
+            if short in _STR_MAKERS or short == "join":
+                return True
+        if isinstance(e, ast.Attribute) and e.attr in _STR_ATTRS:
+            return True
+        if isinstance(e, ast.Name) and len(x.generators) == 1 and isinstance(x.generators[0].target, ast.Name) and x.generators[0].target.id == e.id:
+            return joined_strings(x.generators[0].iter, fn, cls_node, amap)
+        return None
+    if isinstance(x, (ast.Name, ast.Attribute)):
+        ann = _annotation_of(x, fn, cls_node)
+        return _elem_type_is_str(ann, 0)
+    return None
+
+
+def rule_JS(run: Run) -> RuleResult:
+    """What is joined into a message has been turned into text first."""
+    res = RuleResult("R-JS")
+    nec = ("str.join raises TypeError on the first element that is not a str. Dispatch values, aliases and lookup keys are arbitrary hashables "
+           "(bool, int, tuple, MISSING …): an error message that joins them unconverted cannot be built, and the failure surfaces as a TypeError "
+           "from the constructor of the error instead of the SwitchError / EvaluationError whose cause chain leads to the dispatch (C12)")
+    probe = ast.parse("def f(lookup: Mapping[Hashable, Any]):\n    return ', '.join(lookup.keys())\n").body[0]
+    pj = [c for c in ast.walk(probe) if isinstance(c, ast.Call) and isinstance(c.func, ast.Attribute) and c.func.attr == "join"]
+    if joined_strings(pj[0].args[0], probe, None, {}) is not False:
+        raise AnalysisError("R-JS: the detector no longer sees its positive example")
+    n = judged = 0
+    from .model import iter_functions
+    for m, cls, fn, q in iter_functions(run.repo):
+        if m.name.startswith("labrea.mypy"):
+            continue
+        amap = astu.single_assign_map(fn)
+        for c in astu.walk_no_nested(fn):
+            if isinstance(c, ast.Call) and isinstance(c.func, ast.Attribute) and c.func.attr == "join" and len(c.args) == 1 and not c.keywords \
+                    and (isinstance(c.func.value, ast.Constant) and isinstance(c.func.value.value, str)):
+                n += 1
+                v = joined_strings(c.args[0], fn, cls, amap)
+                if v is None:
+                    continue
+                judged += 1
+                res.add(f"{q}:joins text", v, m.relpath, c.lineno,
+                        f"{ast.unparse(c)[:90]}" + ("" if v else ": the joined elements are declared as arbitrary hashables / objects, not str — convert with map(str, …)"), nec)
+    res.count("join_sites", n)
+    res.count("judged", judged)
+    if n < 15 or judged < 10:
+        raise AnalysisError(f"R-JS: only {n} join sites found, {judged} judged")
+    return res
+
+
+def misnamed_type_variables(tree: ast.AST) -> List[tuple]:
+    """(line, bound name, declared name) of every ``X = TypeVar("Y")`` / ParamSpec / TypeVarTuple / NewType with X != Y."""
+    out = []
+    for st in ast.walk(tree):
+        if isinstance(st, ast.Assign) and len(st.targets) == 1 and isinstance(st.targets[0], ast.Name) and isinstance(st.value, ast.Call):
+            fn_ = st.value.func
+            short = fn_.attr if isinstance(fn_, ast.Attribute) else (fn_.id if isinstance(fn_, ast.Name) else "")
+            if short in ("TypeVar", "ParamSpec", "TypeVarTuple", "NewType") and st.value.args and isinstance(st.value.args[0], ast.Constant) \
+                    and isinstance(st.value.args[0].value, str) and st.value.args[0].value != st.targets[0].id:
+                out.append((st.lineno, st.targets[0].id, st.value.args[0].value))
+    return out
+
+
+def rule_TV(run: Run) -> RuleResult:
+    """Type variables carry the name they are bound to."""
+    res = RuleResult("R-TV")
+    nec = ("a type variable is pickled by reference: module + its __name__. Objects built through a subscripted constructor (Iter[Union[K, V]](…)) "
+           "carry that alias as __orig_class__ in their instance state, so a TypeVar whose declared name is not the name it is bound to — or is the name "
+           "of another variable of the module — makes every such object unpicklable (C20)")
+    probe = ast.parse('K = TypeVar("K")\nV = TypeVar("K")\n')
+    if len(misnamed_type_variables(probe)) != 1:
+        raise AnalysisError("R-TV: the detector no longer sees its positive example")
+    n = 0
+    for m in run.repo.modules.values():
+        if m.name.startswith("labrea.mypy"):
+            continue
+        n_here = sum(1 for st in ast.walk(m.tree) if isinstance(st, ast.Assign) and isinstance(st.value, ast.Call)
+                     and ast.unparse(st.value.func).split(".")[-1] in ("TypeVar", "ParamSpec", "TypeVarTuple", "NewType"))
+        if not n_here:
+            continue
+        n += n_here
+        hits = misnamed_type_variables(m.tree)
+        res.add(f"{m.name}:type variables are declared under the name they are bound to", not hits, m.relpath, hits[0][0] if hits else 1,
+                f"{n_here} type variables" if not hits else f"{hits[0][1]} = TypeVar({hits[0][2]!r}) (line {hits[0][0]})", nec)
+    res.count("type_variables", n)
+    if n < 20:
+        raise AnalysisError(f"R-TV: only {n} type variables found")
+    return res
+
+
 def rule_OH(run: Run) -> RuleResult:
     """Values a user supplies as dispatch aliases are only hashable: nothing may put them in order."""
     res = RuleResult("R-OH")
